@@ -22,11 +22,12 @@ NS = 'Scalibr.Registry.'
 KF_ALIAS = 'C19/enable-required-appends-into-shared-slice'
 KF_NILCAPS = 'C19/nil-capabilities-panic'
 KF_CLIDUP = 'C19/cli-extractor-named-twice-enabled-twice'
+KF_GOVREQ = 'C19/govulncheck-network-requirement-inverted'
 # set-union clauses: resolving a list of names; auto-enabling required extractors (borrowed by C01 at Scan level)
 ENABLE_MODULE = 'Scalibr.Properties.C19Enable'
 ENABLE_THEOREMS = ['Scalibr.Registry.' + t for t in ['C19_resolves_list_partial', 'C19_resolves_list_error', 'C19_registry_names_determine', 'C19_resolves_list',
                                                      'C19_enable_once_partial', 'C19_enable_idempotent']]
-THEOREMS = [NS + t for t in [
+THEOREMS = [NS + t for t in ['C19_unknown_environment', 
     'C19_validate_spec', 'C19_filter', 'C19_filter_mem', 'C19_enable_valid_partial', 'C19_filtered_selection_valid_partial', 'C19_keys_nodup', 'C19_required',
     'C19_filtered_valid', 'C19_any_selection_valid', 'C19_names_unique', 'C19_tables_wellformed', 'C19_resolves_keys', 'C19_resolves',
     'C19_advertised_groups', 'C19_source_agrees', 'C19_required_needed', 'validate_eq_satisfied', 'mem_allCaps']] + ENABLE_THEOREMS
@@ -159,6 +160,11 @@ def run(ctx):
             return '%s with the capabilities left nil and plugin requirements %s: %s; with nothing known about the environment exactly the plugins without requirements pass (expected: %s)' % (
                 {'val': 'ScanConfig.ValidatePluginRequirements', 'flt': 'list.FilterByCapabilities', 'one': 'plugin.ValidateRequirements'}[t[1]], caps_str(t[2]),
                 {'panic': 'PANICS (nil pointer dereference)', 'ok': 'passes', 'err': 'is refused'}.get(fi.get('nres'), fi.get('nres')), {'ok': 'passes', 'err': 'refused with an error'}[fm['snres']])
+        if op == 'govreq' and 'snet' in fm and fi.get('net') != fm['snet']:
+            nn = {'0': 'NetworkAny', '1': 'NetworkOffline', '2': 'NetworkOnline'}
+            return 'govulncheck/binary configured with the vulnerability database path %r states the network requirement %s; %s (expected %s)' % (
+                unhex(t[1]), nn.get(fi.get('net'), fi.get('net')),
+                'without a local database it queries the online one' if unhex(t[1]) == '' else 'with a local database it needs no network', nn[fm['snet']])
         if op == 'cli' and fi.get('cres') != 'flagerr':
             sel = 'offline=%s govulncheck-db=%r extractors=%r detectors=%r' % (t[1], unhex(t[2]), unhex(t[3]), unhex(t[4]))
             if fi.get('cdup', '-') != '-':
@@ -241,6 +247,9 @@ def run(ctx):
             return KF_NILCAPS
         # class predicate: the command line's extractor list names an extractor twice (directly and through a group / two groups) and the
         # ONLY complaint is that plugin's double entry among the filesystem / standalone extractors
+        # class predicate: the requirement is the exact opposite of the specified one (any <-> online), for either database setting
+        if t[0] == 'govreq' and {fi.get('net'), fm.get('snet')} == {'0', '2'}:
+            return KF_GOVREQ
         if t[0] == 'cli' and fi.get('cres') == 'ok' and fi.get('cdup', '-') != '-' and all(unhex(d).startswith(('fs ', 'st ')) for d in fi['cdup'].split(',')):
             names = [n.strip() for n in unhex(t[3]).split(',')]
             if len(names) > 1:
@@ -248,15 +257,15 @@ def run(ctx):
         return None
 
     def classify(case, fi, fm):
-        if case.startswith(('share ', 'nilcaps ', 'cli ')):
-            return case.split(' ')[0] + ':' + (fi.get('nres') or fi.get('cres') or ('changed' if fi.get('ena2') != fi.get('ena') else 'kept'))
+        if case.startswith(('share ', 'nilcaps ', 'cli ', 'govreq ')):
+            return case.split(' ')[0] + ':' + (fi.get('nres') or fi.get('cres') or fi.get('net') or ('changed' if fi.get('ena2') != fi.get('ena') else 'kept'))
         return case.split(' ')[0] + ':' + (fi.get('res', fi.get('ok', fi.get('_', ''))).split(':')[0] or '-')[:10]
 
     lib.standard_stream(ctx, gen='c19gen', driver='drv_c19', gen_args=['-seed', str(ctx.seed), '-n', str(n), '-tier', ctx.tier],
                         compare_keys=['errs', 'ok', 'names', 'kept', 'res', 'fs', 'st', 'n', 'dup', 'r', 'after', 'input', 'scan', 'en', 'calls', 'dup', 'stat', 'ena', 'enb'], nontrivial=nontrivial, oracle=oracle, classify=classify,
                         finding_class=finding_class, sample_every=997)
     if not ctx.replay:
-        for kf in (KF_ALIAS, KF_NILCAPS, KF_CLIDUP):
+        for kf in (KF_ALIAS, KF_NILCAPS, KF_CLIDUP, KF_GOVREQ):
             if kf in ctx.known and kf not in ctx.known_hits:
                 ctx.violation('known finding %s no longer reproduces: update known_findings.txt' % kf, ['# ' + kf], found_input=False, name='stale-' + kf.replace('/', '-'))
     if not proofs_ok:
